@@ -97,11 +97,43 @@ def run(ctx):
 C01X_KIND = "rearrangement-changes-value (exploration, outside the proved fragment)"
 
 
+# Witness pairs of known finding F17 (design/Core.md): the same declarations in two orders.  Evaluated on every
+# run before the generated programs; while cue is order dependent on them the check prints ONE KNOWN-FINDING line.
+F17_PAIRS = [
+    ("arithmetic", "y: x + 1\nx: 1 & >1.5\n", "x: 1 & >1.5\ny: x + 1\n"),
+    ("selection", "e: c.r\nc: {r: 2, f: 1, f: 2}\n", "c: {r: 2, f: 1, f: 2}\ne: c.r\n"),
+    ("interpolation", 'e: "\\(c.r)-x"\nc: {r: 2, f: 1 & 2}\n', 'c: {r: 2, f: 1 & 2}\ne: "\\(c.r)-x"\n'),
+    ("template", "a: i.out\nt: {p: number, out: {}}\ni: t & {p: string}\n",
+     "t: {p: number, out: {}}\ni: t & {p: string}\na: i.out\n"),
+]
+
+
+def run_f17_pairs(ctx, harness):
+    import json
+    d = os.path.join(ctx.work, "c01x-f17")
+    os.makedirs(d, exist_ok=True)
+    rc = os.path.join(d, "pairs.json")
+    json.dump([{"program": a, "rearranged": b} for _, a, b in F17_PAIRS], open(rc, "w"))
+    vlib.run([harness, "--mode", "c01x", "--out", d, "--replay-cases", rc], timeout=600)
+    rep = json.load(open(os.path.join(d, "report.json")))
+    bad = rep.get("disagreements") or []
+    names = [nm for nm, a, _ in F17_PAIRS if any(x["program"] == a for x in bad)]
+    if bad:
+        w = bad[0]
+        ctx.known_finding("F17 (c01x witness pairs, %d of %d disagree: %s): the error status of a field computing over a "
+                          "reference into an erroneous value depends on declaration order, e.g. `%s` gives %s but `%s` gives %s"
+                          % (len(bad), len(F17_PAIRS), ", ".join(names), w["program"].strip().replace("\n", "; "),
+                             w["canon_a"].replace("\n", "; "), w["rearranged"].strip().replace("\n", "; "),
+                             w["canon_b"].replace("\n", "; ")))
+    return {"pairs": len(F17_PAIRS), "disagreeing": len(bad), "disagreeing_names": names}
+
+
 def run_c01x(ctx, harness, quick):
     """Exploration (no model, no theorem): programs of the rich fragment of harness/core/rich.go, each with
     k rearrangements (some as a multi-file package); canonical forms must be equal.  At most 5 replays."""
     import json
     import time
+    f17 = run_f17_pairs(ctx, harness)
     d = os.path.join(ctx.work, "c01x")
     os.makedirs(d, exist_ok=True)
     args = [harness, "--mode", "c01x", "--seed", str(ctx.seed), "--out", d, "--max-replays", "5"]
@@ -109,7 +141,7 @@ def run_c01x(ctx, harness, quick):
         payload = json.load(open(ctx.replay))
         payload = payload.get("payload", payload)
         if payload.get("kind") != C01X_KIND:
-            return {"skipped": "replay of another stream"}
+            return {"skipped": "replay of another stream", "F17_witness_pairs": f17}
         rc = os.path.join(d, "replay-cases.json")
         json.dump([{"program": payload["program"], "rearranged": payload["rearranged"]}], open(rc, "w"))
         args += ["--replay-cases", rc]
@@ -138,6 +170,7 @@ def run_c01x(ctx, harness, quick):
         "declarations_avg": rep.get("declarations_avg"),
         "programs_not_compiling": rep.get("not_compiling", 0),
         "disagreements": rep.get("disagreement_count", 0),
+        "F17_witness_pairs": f17,
         "wall_s": secs,
         "samples": (rep.get("samples") or [])[:2],
         "excluded_classes": "disjunctions/default marks (F2), embedded plain struct literals (F8), computations over "
@@ -148,6 +181,6 @@ def run_c01x(ctx, harness, quick):
 MANIFEST = {
     "category": "proof",
     "text": "Coq theorems (equalities of result trees, every fuel and universe) for the CoreCUE conjunct-group semantics: the value of a node depends only on the set of conjunct groups and, within a group, on the set of operands - hence permutation of declarations/files, duplication, commutation/re-association/idempotence of &, & _, split/merge of declarations, {e} sole embedding of a reference/close/scalar, and declaration order inside struct literals all preserve the value. The model is tied to cue by exact agreement of canonical result trees (fields, kinds, per-atom acceptance, in-language closedness probes) on generated programs, and the property is checked directly on the implementation by comparing every program with its rearrangements and a multi-file partition.",
-    "note": "Theorems are about CoreCUE (no references between regular fields, comprehensions, lists, disjunctions inside fields); the declaration-order law is proved for literals without embeddings; congruence of the laws under field values is not yet a theorem (checked by the rearrangement harness at every depth). Known finding F8 (embedding a struct literal changes closedness) is reported as KNOWN-FINDING from corpus/C01/pairs.txt; the generator never embeds plain literals. An additional EXPLORATION stream (mode c01x, harness/core/rich.go; impl vs impl, no model, no theorem) compares programs of a much richer generated fragment (references, let, lists and list comprehensions, field comprehensions, templates with pattern constraints, numeric bounds with the type arriving through a reference, embedded definitions, interpolation, arithmetic, close()) with 6 rearrangements each, some as multi-file packages; it excludes disjunctions/defaults (F2), embedded plain literals (F8) and computations over references into erroneous values (F17).",
+    "note": "Theorems are about CoreCUE (no references between regular fields, comprehensions, lists, disjunctions inside fields); the declaration-order law is proved for literals without embeddings; congruence of the laws under field values is not yet a theorem (checked by the rearrangement harness at every depth). Known finding F8 (embedding a struct literal changes closedness) is reported as KNOWN-FINDING from corpus/C01/pairs.txt; the generator never embeds plain literals. An additional EXPLORATION stream (mode c01x, harness/core/rich.go; impl vs impl, no model, no theorem) compares programs of a much richer generated fragment (references, let, lists and list comprehensions, field comprehensions, templates with pattern constraints, numeric bounds with the type arriving through a reference, embedded definitions, interpolation, arithmetic, close()) with 6 rearrangements each, some as multi-file packages; it excludes disjunctions/defaults (F2), embedded plain literals (F8) and computations over references into erroneous values (F17; its four witness pairs are evaluated on every run and reported as KNOWN-FINDING while they disagree).",
     "technique": "Coq proof (set-of-conjuncts invariance by induction on depth) + extracted-model differential check + direct metamorphic check on the implementation",
 }
